@@ -137,6 +137,20 @@ CHECKS = {
         technique="TLA+ decision-table model (TLC exhaustive) + stratified replay on the code against the row-path reference + TLC trace monitor",
         design_ref="DESIGN.md section 5 C11",
     ),
+    "C12": dict(
+        level="model_checking",
+        text="Convert.tla defines Project(src, tgt, row) - shared columns keep values and nesting, added columns are "
+             "null or zero - and is self-checked by TLC over 72 named source schemas x targets obtained by <=2 "
+             "delete / permute / add edits x all small rows. Sampled triples are realised with Go types built from the "
+             "trees; rows are obtained through the target schema via NewReader(file, schema).Read/ReadRows, "
+             "ConvertRowGroup, CopyRows and MergeRowGroups(schema); ConvertMon.tla compares the shared part exactly and "
+             "requires added fields to hold only nulls and zeros.",
+        note="int64 leaves; one nested group; the statement leaves open whether an added optional group / repeated leaf "
+             "is null, empty or zero-filled, so only the shared part is compared exactly; two known findings (required "
+             "leaf added inside an existing group) are listed in known_findings.json.",
+        technique="TLA+ requirement operator (self-checked by TLC) as the oracle of a TLC trace monitor + TLC-enumerated schema edits replayed on the code",
+        design_ref="DESIGN.md section 5 C12",
+    ),
     "C13": dict(
         level="fault_enumeration",
         text="Corrupt.tla models which load routine brings a page into memory (readPage in the stream vs the lazy "
